@@ -32,6 +32,7 @@ pub struct ScriptProc {
     pub rows: Vec<Vec<Act>>,
     pub rectime: bool,
     pub ndraws: usize,
+    pub stateless: bool,
     pub st: ScriptState,
 }
 
@@ -57,9 +58,9 @@ pub fn act_of(t: &mut Toks) -> Act {
 const KEY_SEP: u64 = 256;
 
 impl ScriptProc {
-    pub fn new(cap: u64, rows: Vec<Vec<Act>>, rectime: bool, ndraws: usize) -> Self {
+    pub fn new(cap: u64, rows: Vec<Vec<Act>>, flags: u64, ndraws: usize) -> Self {
         let rows = if rows.is_empty() { vec![vec![]] } else { rows };
-        ScriptProc { cap, rows, rectime, ndraws, st: ScriptState::default() }
+        ScriptProc { cap, rows, rectime: flags & 1 != 0, ndraws, stateless: flags & 2 != 0, st: ScriptState::default() }
     }
 
     fn handle(&mut self, key: Vec<u64>, ctx: &mut Context) {
@@ -68,14 +69,18 @@ impl ScriptProc {
             draws.push(ctx.rand().to_bits());
         }
         let time = if self.rectime { Some(ctx.time().to_bits()) } else { None };
-        self.st.hist.push(HEntry { key: key.clone(), time, draws });
-        if self.st.idx < self.cap {
-            let mut h: u64 = (self.st.idx * 31) % (1u64 << 32);
+        if !self.stateless {
+            self.st.hist.push(HEntry { key: key.clone(), time, draws });
+        }
+        if self.stateless || self.st.idx < self.cap {
+            let mut h: u64 = if self.stateless { 0 } else { (self.st.idx * 31) % (1u64 << 32) };
             for c in &key {
                 h = (h * 131 + c) % (1u64 << 32);
             }
             let row = self.rows[(h % self.rows.len() as u64) as usize].clone();
-            self.st.idx += 1;
+            if !self.stateless {
+                self.st.idx += 1;
+            }
             for a in row {
                 match a {
                     Act::Send { dst, msg } => ctx.send(msg, pname(dst)),
